@@ -244,15 +244,26 @@ class Ctx:
             return [f.result() for f in futs]
 
     # ------------------------------------------------------------------ Go
-    def overlay(self):
+    def overlay(self, only=None):
+        """only: list of glob patterns (basenames) restricting which harness files are compiled in;
+        vcommon*/vnothing* are always included. Default: every file (what `bin/check --setup` builds)."""
+        import fnmatch
+        only = only or os.environ.get("VERIF_HARNESS_ONLY", "").split() or None
+
+        def want(b):
+            return (not only) or b.startswith("vcommon") or b.startswith("vnothing") or any(fnmatch.fnmatch(b, p) for p in only)
         ov = {}
         for f in sorted(glob.glob(os.path.join(HARNESS, "inpkg", "*.go"))):
             b = os.path.basename(f)
+            if not want(b):
+                continue
             if not b.endswith("_test.go"):
                 b = b[:-3] + "_test.go"
             ov[os.path.join(REPO, "zz_verif_" + b)] = f
         for f in sorted(glob.glob(os.path.join(HARNESS, "mocks", "*.go"))):
             b = os.path.basename(f)
+            if not want(b):
+                continue
             if not b.endswith("_test.go"):
                 b = b[:-3] + "_test.go"
             ov[os.path.join(REPO, "mocks", "zz_verif_" + b)] = f
@@ -261,7 +272,7 @@ class Ctx:
             json.dump({"Replace": ov}, f)
         return p
 
-    def go_test(self, run, pkg=".", env=None, timeout=300, name=None, race=False):
+    def go_test(self, run, pkg=".", env=None, timeout=300, name=None, race=False, only=None):
         """go test -run <run> of the harness compiled into package sarama from REPO's
         current working tree (hooks enabled through -tags verif). Returns (rc, output)."""
         outdir = os.path.join(self.scratch, name or ("go-" + re.sub(r"\W+", "_", run)))
@@ -272,7 +283,7 @@ class Ctx:
         e["VERIF_SEED"] = str(self.seed)
         e["VERIF_TIER"] = self.tier
         e.update({k: str(v) for k, v in (env or {}).items()})
-        cmd = ["go", "test", "-overlay", self.overlay(), "-tags", "verif", "-vet=off",
+        cmd = ["go", "test", "-overlay", self.overlay(only), "-tags", "verif", "-vet=off",
                "-run", run, "-count=1", "-timeout", "%ds" % timeout]
         if race:
             cmd.append("-race")
